@@ -3,7 +3,8 @@ split-independent: exact comparison of model and implementation."""
 from .common import hexs, exact_compare
 from . import skyb
 
-RULE = ("valid checksummed files with lengths on both sides of and at multiples of the 256-byte read chunk; for each: "
+RULE = ("valid checksummed files with lengths on both sides of and at multiples of the 256-byte read chunk, and files beyond "
+        "64 KiB and 128 KiB with corruptions at the offsets congruent to the checksum field modulo 65536; for each: "
         "every single-bit flip from offset 6 to the end, sampled double-bit flips, every 1..4-byte window (not straddling "
         "offset 10) overwritten with xor-ff / zero / random, through the parser on both routes and (sampled) through the four "
         "loaders; sb_ap_crc32_update on random data with random split points and against the bit-serial specification. "
@@ -49,6 +50,7 @@ def cases(rng, tier):
         yield ("crc %d %s %s" % (init, hexs(d), ",".join(map(str, cuts)) if cuts else "-"), "crc-split")
         if n <= 300:
             yield ("crcspec %s" % hexs(d), "crc-bitserial")
+    yield from large_cases(rng, thorough)
     # --- corrupted files
     lens = [10, 13, 24, 200, 255, 256, 257, 266, 511, 512, 513, 522] + ([768, 1024, 1025, 1290] if thorough else [768])
     for L in lens:
@@ -93,6 +95,45 @@ def cases(rng, tier):
                     if bytes(g) == f:
                         continue
                     yield ("file %s %s c" % (rng.choice(["mem", "fd"]), hexs(g)), "window%d" % w)
+
+
+def large_cases(rng, thorough):
+    """files beyond 64 KiB (several blocks): the bookkeeping of the chunked checksum loop (chunk counter, 'first chunk'
+    test, offsets) at multiples of 256 and 65536; corruptions at the positions congruent to the checksum field"""
+    for L in ([65546 + 300] if not thorough else [65536, 65546, 65547, 70016, 131082 + 17, 196700]):
+        for fill in ("rnd", "zero"):
+            body_len = L - 10
+            blocks = []
+            remaining = body_len
+            while remaining >= 3:
+                n = min(remaining - 3, 60000)
+                if remaining - 3 - n in (1, 2):
+                    n -= 3
+                body = bytes(rng.randrange(256) for _ in range(n)) if fill == "rnd" else bytes(n)
+                blocks.append((3, body))
+                remaining -= 3 + n
+            f = skyb.container(blocks, version=2, with_crc=True)
+            f = f + bytes(L - len(f))
+            f = bytes(f[:6]) + bytes(4) + bytes(f[10:])
+            c = skyb.ap_crc32(f)
+            f = f[:6] + bytes([c & 255, (c >> 8) & 255, (c >> 16) & 255, (c >> 24) & 255]) + f[10:]
+            for r in ("mem", "fd"):
+                yield ("file %s %s v,c" % (r, hexs(f)), "valid")
+            pos = []
+            for k in range(1, L // 65536 + 1):
+                pos += [k * 65536 + d for d in (0, 5, 6, 7, 8, 9, 10, 255, 256)]
+            pos += [L - 1, 256 + 6, 10] + [rng.randrange(10, L) for _ in range(2 if not thorough else 6)]
+            for p0 in pos:
+                if not (10 <= p0 < L):
+                    continue
+                g = bytearray(f)
+                g[p0] ^= 1 << rng.randrange(8)
+                yield ("file %s %s c" % (rng.choice(["mem", "fd"]), hexs(g)), "flip1")
+                if p0 + 4 <= L and (thorough or p0 % 65536 in (6, 0)):
+                    g = bytearray(f)
+                    for i in range(p0, p0 + 4):
+                        g[i] ^= 0xff
+                    yield ("file %s %s c" % (rng.choice(["mem", "fd"]), hexs(g)), "window4")
 
 
 def compare(case, om, oi):
